@@ -1134,7 +1134,14 @@ impl Interp {
             if self.is_uncertain(od.node, &nm) {
                 // existence unknown: only keep the implementation's handle table clean
                 if let Ok(h) = r {
-                    let _ = self.call(info, |a| a.close_file(h, Surf::Raw, false));
+                    let cr = self.call(info, |a| a.close_file(h, Surf::Raw, false));
+                    // this step contained a close (which may store the information sector); if
+                    // that close failed, the step as a whole reports the failure
+                    info.closed_file = true;
+                    if let Some(cr @ Err(_)) = cr {
+                        self.note_result(info, &cr);
+                        info.ok = false;
+                    }
                 }
                 return;
             }
